@@ -1089,11 +1089,9 @@ more:
 	}
 	for (int n; i < argi->nargs; i++, bix += n) {
 		n = snprintf(BUF, BSZ, "&tuid=%s", argi->args[i]);
-		if (UNLIKELY(bix + n >= sizeof(buf))) {
-			/* just do him next time */
-			break;
-		} else if (UNLIKELY(bix + strlenof(vers) >= sizeof(buf))) {
-			/* we can't have no space for the version suffix */
+		if (UNLIKELY(bix + n + strlenof(vers) >= sizeof(buf))) {
+			/* just do him next time,
+			 * we can't have no space for the version suffix */
 			break;
 		}
 	}
